@@ -1,4 +1,6 @@
 mod alias;
+mod ctor;
+mod fl;
 mod rng;
 mod tree;
 mod tw;
@@ -14,6 +16,8 @@ fn main() {
         "tree-drive" => tree::drive(rest),
         "alias-replay" => alias::replay(rest),
         "alias-drive" => alias::drive(rest),
+        "ctor-replay" => ctor::replay(rest),
+        "ctor-fuzz" => ctor::fuzz(rest),
         "tree-drive-floats" => tree::drive_floats(rest),
         _ => { eprintln!("unknown subcommand {:?}", cmd); 2 }
     };
